@@ -46,7 +46,8 @@ structure MainNP (cfg : Cfg) (s : State) : Prop where
   cnt : Cnt s
   notDone : s.sh.completed = false → s.sh.fired = []
   done : s.sh.completed = true → s.sh.pending = 0
-  snap : ∀ f ∈ s.sh.fired, f.finished = s.sh.registered ∧ f.registered = s.sh.registered
+  snap : ∀ f ∈ s.sh.fired, f.finished = s.sh.registered ∧ f.registered = s.sh.registered ∧
+    f.failedBefore = s.sh.failed
   will : s.sh.pending = 0 → s.sh.completed = true ∨ 0 < tsum Instr.fires s.threads
   quiet : 0 < tsum Instr.fires s.threads → s.sh.pending = 0
 
@@ -127,8 +128,7 @@ theorem mainNP_step {cfg : Cfg} {s s' : State} {n : Nat} (hinv : MainNP cfg s)
           rw [hfired] at hf
           simp only [List.nil_append, List.mem_singleton] at hf
           subst hf
-          simp only [and_true]
-          omega
+          exact ⟨by simp only; omega, rfl, rfl⟩
         · intro _; exact Or.inl trivial
         · intro _; exact hp
   · -- `pending ≠ 0`: not completed, no pending `complete` call
@@ -161,7 +161,7 @@ theorem mainNP_step {cfg : Cfg} {s s' : State} {n : Nat} (hinv : MainNP cfg s)
 /-- at the end of a run without panics -/
 theorem mainNP_terminal {cfg : Cfg} {s : State} (hinv : MainNP cfg s) (hon : InvOnce s) (ht : Terminal s) :
     ∃ f, s.sh.fired = [f] ∧ f.finished = s.sh.registered ∧ f.registered = s.sh.registered
-      ∧ s.sh.finished = s.sh.registered ∧ s.sh.pending = 0 := by
+      ∧ s.sh.finished = s.sh.registered ∧ s.sh.pending = 0 ∧ f.failedBefore = s.sh.failed := by
   have hO : tsum Instr.owed s.threads = 0 := tsum_eq_zero_iff.mpr (fun t h => by rw [ht t h]; rfl)
   have hF : tsum Instr.fires s.threads = 0 := tsum_eq_zero_iff.mpr (fun t h => by rw [ht t h]; rfl)
   have hg := hinv.g0
@@ -177,7 +177,7 @@ theorem mainNP_terminal {cfg : Cfg} {s : State} (hinv : MainNP cfg s) (hon : Inv
   match hfd : s.sh.fired, hlen with
   | [f], _ =>
     have := hinv.snap f (by rw [hfd]; simp)
-    exact ⟨f, rfl, this.1, this.2, by omega, hp⟩
+    exact ⟨f, rfl, this.1, this.2.1, by omega, hp, this.2.2⟩
 
 end LinVerif.Pipeline
 
